@@ -78,6 +78,8 @@ pub struct PWin {
 pub enum PLoc {
     Vertex(usize),
     Top,
+    /// LOCATION = TOP with an explicit AZIMUTH (the outline is still the space's)
+    TopAz(f32),
     Bottom,
     /// own polygon: x, y, z, azimuth, tilt, polygon name, points
     Poly { x: f32, y: f32, z: f32, azimuth: f32, tilt: f32, polygon: String, pts: Vec<[f32; 2]> },
@@ -179,7 +181,8 @@ pub fn gen_proj(rng: &mut Rng, o: &GenOpts) -> Proj {
     let nmat = rng.range(3, 5);
     let materials: Vec<PMat> = (0..nmat)
         .map(|i| PMat {
-            name: format!("Material {}", i + 1),
+            // one name in three has a double blank (the parser normalises blanks in material names)
+            name: if i == 0 && rng.chance(1, 3) { "Material  doble  blanco".to_string() } else { format!("Material {}", i + 1) },
             conductivity: r2(rng, 0.03, 2.5),
             density: r2(rng, 20.0, 2500.0),
             thickness: r2(rng, 0.01, 0.3),
@@ -188,7 +191,7 @@ pub fn gen_proj(rng: &mut Rng, o: &GenOpts) -> Proj {
         .collect();
     // air gaps are catalogue materials named "Cámara de aire … N cm": the thickness is read from the name's tail
     let mut materials = materials;
-    for tail in ["sin ventilar vertical 2 cm", "ligeramente ventilada horizontal 10 cm", "nº1 cm", "de 3 cm²"] {
+    for tail in ["sin ventilar vertical 2 cm", "ligeramente ventilada horizontal 10 cm", "nº1 cm", "de 3 cm²", "sin ventilar 15 cm", "vertical 2.5 cm", "de 12 cm"] {
         if rng.chance(1, 3) {
             materials.push(PMat { name: format!("Cámara de aire {}", tail), conductivity: 0.0, density: 0.0, thickness: 0.02, resistance: Some(r2(rng, 0.1, 0.2)) });
         }
@@ -323,7 +326,8 @@ pub fn gen_proj(rng: &mut Rng, o: &GenOpts) -> Proj {
                         windows: vec![],
                     });
                 } else {
-                    walls.push(PWall { name: format!("{}_C001", sname), btype: "ROOF", loc: PLoc::Top, construction: lay.clone(), layers: lay, next_to: None, adiabatic: false, windows: vec![] });
+                    let loc = if rng.chance(1, 3) { PLoc::TopAz(*rng.pick(&[90.0, 180.0, 270.0, 37.0])) } else { PLoc::Top };
+                    walls.push(PWall { name: format!("{}_C001", sname), btype: "ROOF", loc, construction: lay.clone(), layers: lay, next_to: None, adiabatic: false, windows: vec![] });
                 }
             } else {
                 walls.push(PWall {
@@ -558,6 +562,10 @@ pub fn print_proj(p: &Proj) -> String {
                 match &wl.loc {
                     PLoc::Vertex(k) => w(&format!("                  LOCATION      = SPACE-V{}  ", k)),
                     PLoc::Top => w("                  LOCATION      = TOP  "),
+                    PLoc::TopAz(a) => {
+                        w("                  LOCATION      = TOP  ");
+                        w(&format!("                  AZIMUTH       = {}", a));
+                    }
                     PLoc::Bottom => w("                  LOCATION      = BOTTOM  "),
                     PLoc::Poly { x, y, z, azimuth, tilt, polygon, .. } => {
                         w(&format!("                  X             = {}", x));
